@@ -1,4 +1,7 @@
 import PyYetiVerif.Lemmas.Coord
+import PyYetiVerif.Lemmas.CoordSph
+import PyYetiVerif.Lemmas.CoordRbe3
+import PyYetiVerif.Lemmas.CoordChain
 /-!
 # C14 — coordinate systems and rigid-body geometry are mutually consistent
 
@@ -24,6 +27,18 @@ pyyeti/nastran/n2p.py by the correspondence check.  Round-off is outside these s
 * `rbcoords_recovers`: `rbcoords` returns `p - ref`.
 * `replace_basic_rigid`: `replace_basic_cs` preserves inter-grid distances, relative local-frame
   orientations and every grid's coordinates in its own (moved) output system.
+* `sph_roundtrip_inv`, `chain_consistent_sph`, `sph_branch_safe`, `sph_branch_abs_needed`: inverse ∘ forward
+  for spherical coordinates in the principal range; the `|sin φ| > |cos φ|` choice always divides by a
+  number of magnitude ≥ 1/√2, the choice without absolute values divides by 0 at φ = 180°.
+* `rbcoords_recovers_all`: `rbcoords` needs only an orthonormal output transform (every branch).
+* `rbe3_normal_invertible`, `rbe3_alg_reproduces`, `rbe3_reproduces_rb`, `rbe3_rigid_motion`: `formrbe3`
+  maps the rigid-body modes (relative to any reference point) of the independent DOF to those of the
+  dependent DOF when the weights are positive and the independent rows have full column rank (the
+  normal-equations argument), for every exact `solve`; `rbe3_um_indep`, `rbe3_um_mixed`, `rbe3_um_dep`: the
+  three `UM_List` re-partitions keep that property; `um_plan_*`: which branch the DOF bookkeeping takes.
+* `chain_order_irrelevant`, `chain_circular_refused`, `chain_resolved`: `build_coords` does not depend on
+  the order of the cards, refuses reference cycles / undefined references, and every entry of its
+  dictionary is the A-B-C construction of its card relative to the entry of the card's reference.
 -/
 namespace PyYetiVerif.C14
 open PyYetiVerif.Coord
@@ -172,5 +187,238 @@ theorem replace_basic_rigid (A B C : V3 ℝ) (hABC : NonCollinear A B C) (g h : 
   · rw [e1, hF.dot_mulVec]
   · rw [transpose_mul, mul_assoc3, ← mul_assoc3 T.transpose, hF.1, one_mul3]
   · rw [e1, transpose_mul, ← mulVec_mulVec, hF.transpose_mulVec]
+
+/-! ## spherical coordinates: inverse ∘ forward, and the branch choice -/
+
+/-- `getcoordinates (addgrid a) = a` in a spherical system for `r > 0`, `0 < θ < 180`, `-180 < φ ≤ 180` -/
+theorem sph_roundtrip_inv (a : V3 ℝ) (hr : 0 < a.x) (hth0 : 0 < a.y) (hth1 : a.y < 180)
+    (hlo : -180 < a.z) (hhi : a.z ≤ 180) :
+    fromRect .sph (toRect .sph a) = a :=
+  sph_inv_fwd a hr hth0 hth1 hlo hhi
+
+theorem chain_consistent_sph (ci : CoordInfo ℝ) (a : V3 ℝ) (hT : IsFrame ci.T) (hc : ci.typ = .sph)
+    (hr : 0 < a.x) (hth0 : 0 < a.y) (hth1 : a.y < 180) (hlo : -180 < a.z) (hhi : a.z ≤ 180) :
+    getCoordinates ci (locBasic ci a) = a := by
+  unfold locBasic getCoordinates
+  rw [hc, add_sub_cancel_left3, hT.transpose_mulVec]
+  exact sph_inv_fwd a hr hth0 hth1 hlo hhi
+
+example : (0 : ℝ) < (⟨1, 90, 180⟩ : V3 ℝ).x ∧ (0 : ℝ) < (⟨1, 90, 180⟩ : V3 ℝ).y
+    ∧ (⟨1, 90, 180⟩ : V3 ℝ).y < 180 ∧ -180 < (⟨1, 90, 180⟩ : V3 ℝ).z ∧ (⟨1, 90, 180⟩ : V3 ℝ).z ≤ 180 := by
+  norm_num
+
+/-- the divisor chosen by `|sin φ| > |cos φ|` is never small -/
+theorem sph_branch_safe (p : ℝ) :
+    1 / 2 ≤ (if |Real.cos p| < |Real.sin p| then Real.sin p else Real.cos p) ^ 2 :=
+  sph_divisor_large p
+
+/-- at `(r, θ, φ) = (1, 90°, 180°)` the choice `sin φ > cos φ` (no absolute values) picks `sin φ = 0` as
+the divisor and returns `θ = 0`, while `getcoordinates` returns `θ = 90` -/
+theorem sph_branch_abs_needed :
+    let g : V3 ℝ := ⟨-1, 0, 0⟩
+    let phi := Complex.arg ⟨g.x, g.y⟩
+    phi = Real.pi ∧ Real.cos phi < Real.sin phi ∧
+    Complex.arg ⟨g.z, g.y / Real.sin phi⟩ = 0 ∧
+    (fromRect .sph g).y = 90 :=
+  Coord.sph_branch_abs_needed
+
+/-! ## `rbcoords`: minimal hypothesis -/
+
+theorem rbcoords_recovers_all (co : CoordInfo ℝ) (p ref : V3 ℝ) (hT : IsFrame co.T) :
+    rbcoordsGrid (gridRb co p ref) = p.sub ref := by
+  have dT : co.T.transpose.det ≠ 0 := hT.det_transpose_ne
+  have dz : ∀ t : ℝ, (rotzT t).det = 1 := fun t => by
+    rw [← det_transpose]; exact (rotzT_frame t).2
+  have ds : ∀ t : ℝ, (sphT t).det = 1 := fun t => by
+    rw [← det_transpose]; exact (sphT_frame t).2
+  unfold gridRb
+  cases co.typ <;> simp only [] <;> (try split_ifs) <;> (try simp only [lmul_lmul]) <;>
+    (apply rbcoords_lmul_rigid; (try simp only [det_mul, dz, ds, one_mul]); exact dT)
+
+example : rbcoordsGrid (gridRb (⟨.sph, V3.zero, M3.one⟩ : CoordInfo ℝ) ⟨0, 0, 2⟩ ⟨1, 1, 1⟩)
+    = (⟨0, 0, 2⟩ : V3 ℝ).sub ⟨1, 1, 1⟩ :=
+  rbcoords_recovers_all _ _ _ IsFrame.one
+
+example (g h : GridR ℝ) := replace_basic_rigid ⟨0, 0, 0⟩ ⟨0, 0, 1⟩ ⟨1, 0, 0⟩
+  (by simp [NonCollinear, V3.sub, V3.cross, V3.zero]) g h
+
+/-! ## `formrbe3` -/
+
+/-- positive weights and full column rank of the independent rows make `rbᵀ W rb` invertible -/
+theorem rbe3_normal_invertible {m k : ℕ} (R : Mx ℝ m k) (w : Fin m → ℝ) (hw : ∀ i, 0 < w i)
+    (hR : Function.Injective (toM R).mulVec) :
+    IsUnit (toM (fun j i => R i j * w i : Mx ℝ k m) * toM R).det :=
+  normal_isUnit (toM R) w hw hR
+
+/-- the least-squares step over any field: `rbe3 · rb = T[dd]` for every exact `solve` -/
+theorem rbe3_alg_reproduces {K : Type} [Field K] {m nd : ℕ}
+    (solve : Solver K) (hs : ExactSolve solve)
+    (rb : Mx K m 6) (w : Fin m → K) (T : Mx K 6 6) (dd : Fin nd → Fin 6)
+    (hA : IsUnit (toM (fun j i => rb i j * w i : Mx K 6 m) * toM rb).det) :
+    toM (rbe3Alg solve rb w T dd).mx * toM rb = toM (T.selRows dd) :=
+  rbe3Alg_mul_rb solve hs rb w T dd hA
+
+/-- `formrbe3` (no `UM_List`): the interpolation matrix times the `rbgeom_uset` rows of the independent
+DOF (relative to any reference point `ref`) is the `rbgeom_uset` rows of the dependent DOF, for any
+dependent / independent grids in any output systems (q-set grids included), any component selection,
+positive weights, and independent rows of full column rank -/
+theorem rbe3_reproduces_rb {m nd : ℕ} (solve : Solver ℝ)
+    (hs : ExactSolve solve) (grids : List (GridR ℝ)) (dep : GridR ℝ) (dd : Fin nd → Fin 6)
+    (ind : Fin m → IndDof ℝ) (hw : ∀ k, 0 < (ind k).w)
+    (hrank : Function.Injective (toM (indRows ind dep.p)).mulVec) (ref : V3 ℝ) :
+    toM (rbe3Grid solve grids dep dd ind).mx * toM (indRows ind ref)
+      = toM ((gridRowsMx dep ref).selRows dd) :=
+  rbe3Grid_mul_indRows solve hs grids dep dd ind hw hrank ref
+
+/-- … hence any rigid motion `x = (t, ω)` of the reference point, seen at the independent DOF, is
+mapped to the same rigid motion seen at the dependent DOF -/
+theorem rbe3_rigid_motion {m nd : ℕ} (solve : Solver ℝ)
+    (hs : ExactSolve solve) (grids : List (GridR ℝ)) (dep : GridR ℝ) (dd : Fin nd → Fin 6)
+    (ind : Fin m → IndDof ℝ) (hw : ∀ k, 0 < (ind k).w)
+    (hrank : Function.Injective (toM (indRows ind dep.p)).mulVec) (ref : V3 ℝ) (x : Fin 6 → ℝ) :
+    (toM (rbe3Grid solve grids dep dd ind).mx).mulVec ((toM (indRows ind ref)).mulVec x)
+      = (toM ((gridRowsMx dep ref).selRows dd)).mulVec x := by
+  rw [Matrix.mulVec_mulVec, rbe3Grid_mul_indRows solve hs grids dep dd ind hw hrank ref]
+
+/-- the rows used by `formrbe3` are those of `rbgeom_uset` (`usetRb`, the subject of `rb_is_rigid`) -/
+theorem rbe3_rows_are_rbgeom_uset (g : GridR ℝ) (ref : V3 ℝ) :
+    (usetRb [some g] ref).map row6 = (gridRowsMx g ref).toLists := by
+  cases hq : g.q <;>
+    simp [usetRb, gridRowsMx, hq, Rb.rows, row6, V3.toList, Mx.toLists, List.ofFn_succ, Rb.toMx,
+      Rb.rowAt, v6, zeroRow, Mx.zero, V3.zero, List.replicate]
+
+/-- the rank hypothesis holds as soon as the independent DOF contain the three translations of three
+grids that are not on one line (any output systems, any further DOF) -/
+theorem rbe3_fullrank_three_grids {m : ℕ} (ind : Fin m → IndDof ℝ) (ref : V3 ℝ) (g1 g2 g3 : GridR ℝ)
+    (hq : g1.q = false ∧ g2.q = false ∧ g3.q = false)
+    (hT : IsFrame g1.co.T ∧ IsFrame g2.co.T ∧ IsFrame g3.co.T)
+    (hnc : NonCollinear g1.p g2.p g3.p)
+    (hcov : ∀ g, g = g1 ∨ g = g2 ∨ g = g3 → ∀ c : Fin 6, c.val < 3 → ∃ k, (ind k).g = g ∧ (ind k).dof = c) :
+    Function.Injective (toM (indRows ind ref)).mulVec :=
+  indRows_fullrank_of_three ind ref g1 g2 g3 hq hT hnc hcov
+
+/-- `formrbe3` with the translations of three non-collinear grids among the independent DOF -/
+theorem rbe3_reproduces_rb_three_grids {m nd : ℕ} (solve : Solver ℝ)
+    (hs : ExactSolve solve) (grids : List (GridR ℝ)) (dep : GridR ℝ) (dd : Fin nd → Fin 6)
+    (ind : Fin m → IndDof ℝ) (hw : ∀ k, 0 < (ind k).w) (g1 g2 g3 : GridR ℝ)
+    (hq : g1.q = false ∧ g2.q = false ∧ g3.q = false)
+    (hT : IsFrame g1.co.T ∧ IsFrame g2.co.T ∧ IsFrame g3.co.T)
+    (hnc : NonCollinear g1.p g2.p g3.p)
+    (hcov : ∀ g, g = g1 ∨ g = g2 ∨ g = g3 → ∀ c : Fin 6, c.val < 3 → ∃ k, (ind k).g = g ∧ (ind k).dof = c)
+    (ref : V3 ℝ) :
+    toM (rbe3Grid solve grids dep dd ind).mx * toM (indRows ind ref)
+      = toM ((gridRowsMx dep ref).selRows dd) :=
+  rbe3Grid_mul_indRows solve hs grids dep dd ind hw
+    (indRows_fullrank_of_three ind dep.p g1 g2 g3 hq hT hnc hcov) ref
+
+example : ExactSolve (K := ℝ) invSolve := invSolve_exact
+
+example : (∀ k, 0 < (exInd k).w) ∧ Function.Injective (toM (indRows exInd V3.zero)).mulVec :=
+  ⟨fun _ => by simp [exInd], exInd_fullrank⟩
+
+/-- `UM_List` inside the independent set (`rbe3 = solve(rbe3[:, m], [I, -rbe3[:, n]])`): if `R` maps the
+independent motion `Zi` to the dependent motion `Zd`, the new matrix maps (dependent, remaining
+independent) motion to the m-set motion -/
+theorem rbe3_um_indep {K : Type} [Field K] {nd ni q s : ℕ}
+    (solve : Solver K) (hs : ExactSolve solve) (R : Mx K nd ni)
+    (im : Fin nd → Fin ni) (inn : Fin q → Fin ni) (hp : IsPartition im inn)
+    (hRm : IsUnit (toM (R.selCols im)).det)
+    (Zi : Mx K ni s) (Zd : Mx K nd s) (h : toM R * toM Zi = toM Zd) :
+    toM (umIndep solve R im inn).mx * toM (Mx.vstack Zd (Zi.selRows inn)) = toM (Zi.selRows im) :=
+  umIndep_spec solve hs R im inn hp hRm Zi Zd h
+
+/-- mixed m-set (`E = solve(C, [I, -D])`, `F = A E + [0, B]`) -/
+theorem rbe3_um_mixed {K : Type} [Field K] {nd ni r c q s : ℕ}
+    (solve : Solver K) (hs : ExactSolve solve) (R : Mx K nd ni)
+    (dm : Fin r → Fin nd) (dn : Fin c → Fin nd) (im : Fin c → Fin ni) (inn : Fin q → Fin ni)
+    (hp : IsPartition im inn) (hC : IsUnit (toM ((R.selRows dn).selCols im)).det)
+    (Zi : Mx K ni s) (Zd : Mx K nd s) (h : toM R * toM Zi = toM Zd) :
+    toM (umMixed solve R dm dn im inn).mx * toM (Mx.vstack (Zd.selRows dn) (Zi.selRows inn))
+      = toM (Mx.vstack (Zd.selRows dm) (Zi.selRows im)) :=
+  umMixed_spec solve hs R dm dn im inn hp hC Zi Zd h
+
+/-- m-set = dependent set: the rows are only selected / reordered -/
+theorem rbe3_um_dep {K : Type} [Field K] {nd ni r s : ℕ} (R : Mx K nd ni) (dm : Fin r → Fin nd)
+    (Zi : Mx K ni s) (Zd : Mx K nd s) (h : toM R * toM Zi = toM Zd) :
+    toM (R.selRows dm) * toM Zi = toM (Zd.selRows dm) := by
+  rw [selRows_mul, h]
+
+example : IsPartition (fun _ : Fin 1 => (⟨1, by decide⟩ : Fin 3))
+    (fun i : Fin 2 => (⟨2 * i.val, by omega⟩ : Fin 3)) := by
+  constructor
+  · intro a b h
+    rcases a with a | a <;> rcases b with b | b <;> simp [Fin.ext_iff] at h ⊢ <;> omega
+  · intro y
+    fin_cases y
+    · exact ⟨Sum.inr 0, rfl⟩
+    · exact ⟨Sum.inl 0, rfl⟩
+    · exact ⟨Sum.inr 1, rfl⟩
+
+/-- **partial** — the full statement "the branch taken by `formrbe3` matches where the m-set lies" fails on
+the unchanged code when the m-set holds the *first* dependent DOF and otherwise independent DOF
+(`um_plan_indep_counterexample`: the code raises); it holds when the first dependent DOF is not in the m-set -/
+theorem um_plan_indep_partial {ddof idof mdof : List Nat} {nuset : Nat} {p : UmPlan}
+    (hfirst : ∀ k, ddof.head? = some k → k ∉ mdof)
+    (h : umPlan ddof idof mdof nuset = some p) (hb : p.branch = .indep) :
+    (∀ k ∈ mdof, k ∉ ddof ∧ k ∈ idof) ∧ p.im = positions idof mdof
+      ∧ p.inn = complIdx (positions idof mdof) idof.length :=
+  umPlan_indep_partial hfirst h hb
+
+/-- **partial** — fails on the unchanged code when the m-set holds the *first* independent DOF and
+otherwise dependent DOF (`um_plan_dep_counterexample`: 5 rows are returned for a 6-DOF m-set) -/
+theorem um_plan_dep_partial {ddof idof mdof : List Nat} {nuset : Nat} {p : UmPlan}
+    (hfirst : ∀ k, idof.head? = some k → k ∉ mdof)
+    (h : umPlan ddof idof mdof nuset = some p) (hb : p.branch = .dep) :
+    (∀ k ∈ mdof, k ∉ idof) ∧ p.dm = positions ddof mdof :=
+  umPlan_dep_partial hfirst h hb
+
+theorem um_plan_dep_counterexample :
+    (umPlan [24, 25, 26, 27, 28, 29] [0, 1, 2, 6, 7, 8, 12, 13, 14, 18, 19, 20]
+      [0, 24, 25, 26, 27, 28] 30).map (fun p => (p.branch, p.dm)) = some (.dep, [0, 1, 2, 3, 4]) :=
+  umPlan_dep_counterexample
+
+theorem um_plan_indep_counterexample :
+    umPlan [24, 25, 26, 27, 28, 29] [0, 1, 2, 6, 7, 8, 12, 13, 14, 18, 19, 20]
+      [1, 2, 6, 8, 13, 24] 30 = none :=
+  umPlan_indep_counterexample
+
+example : (umPlan [24, 25, 26, 27, 28, 29] [0, 1, 2, 6, 7, 8] [0, 1, 2, 6, 7, 8] 30).map (·.branch)
+    = some .indep := by decide
+
+/-! ## chaining bookkeeping of `build_coords` -/
+
+/-- the dictionary does not depend on the order in which the cards are given (equal duplicates allowed) -/
+theorem chain_order_irrelevant {l₁ l₂ : List (Card (CsBody ℝ))} (hp : l₁.Perm l₂) (hc : NoConflict l₁) :
+    buildCoords l₁ = buildCoords l₂ :=
+  buildCoords_eq_of_perm hp hc
+
+/-- ids in a set `S` closed under reference that does not contain 0 — a reference cycle, or a chain ending
+at an id that no card defines — are refused: no dictionary is returned -/
+theorem chain_circular_refused (S : Nat → Prop) (cards : List (Card (CsBody ℝ)))
+    (hcl : ∀ c ∈ cards, S c.cid → S c.ref) (h0 : ¬ S 0) (hex : ∃ c ∈ cards, S c.cid) :
+    ∀ d, buildCoords cards ≠ .ok d :=
+  buildCoords_refuses_closed (fun _ _ h => of_decide_eq_true h) S cards hcl h0 hex
+
+/-- a two-cycle `5 → 7 → 5` next to a valid card -/
+example (b : CsBody ℝ) : ∀ d, buildCoords [⟨1, 0, b⟩, ⟨5, 7, b⟩, ⟨7, 5, b⟩] ≠ .ok d :=
+  chain_circular_refused (fun x => x = 5 ∨ x = 7) _
+    (by intro c hc; simp at hc; rcases hc with rfl | rfl | rfl <;> simp)
+    (by simp) ⟨⟨5, 7, b⟩, by simp, by simp⟩
+
+/-- cards with the same id but different content are refused (`RuntimeError: duplicate but unequal …`);
+together with `chain_order_irrelevant` (whose hypothesis is the negation) this covers every input -/
+theorem chain_dup_unequal_refused (cards : List (Card (CsBody ℝ))) (h : ¬ NoConflict cards) :
+    ∃ c, buildCoords cards = .error (.dupUnequal c) :=
+  buildCoords_refuses_conflict (fun _ _ h => of_decide_eq_true h) cards h
+
+/-- a returned dictionary has the basic system under 0, every card's id as a key, and every entry is
+`mkCoord` (the A-B-C construction) of a card relative to the entry of that card's reference -/
+theorem chain_resolved {cards : List (Card (CsBody ℝ))} {d : CoordRef ℝ} (hne : cards ≠ [])
+    (h : buildCoords cards = .ok d) :
+    d.lookup 0 = some basic ∧
+    (∀ c ∈ cards, ∃ v, d.lookup c.cid = some v) ∧
+    (∀ x v, d.lookup x = some v → (x = 0 ∧ v = basic) ∨
+      ∃ c ∈ cards, c.cid = x ∧ ∃ r, d.lookup c.ref = some r ∧ v = cardInfo r c) :=
+  buildCoords_resolved (fun _ _ h => of_decide_eq_true h) hne h
 
 end PyYetiVerif.C14
